@@ -204,6 +204,37 @@ def run(chk, tier):
         else:
             chk.bad("R15.3", "case|%s" % b, "the case-insensitive variant must be the case-sensitive one with BOTH operands lower-cased: expected %s, found %s" % (want["calls"], rows[b]["calls"]), "rscel/src/context/default_funcs/string")
 
+    # ---- R15.4 generated dispatch: each overload is selected by exactly the argument variants of its signature
+    nd = 0
+    for b in sorted(F.bodies.values(), key=lambda x: x.path):
+        if b.pkg != "rscel" or not b.path.endswith("::dispatch") or not b.path.startswith(PFX):
+            continue
+        r = common.dispatch_table(F, b)
+        short = b.path[len(PFX):]
+        if r is None:
+            chk.bad("R15.4", "dispatch|" + short, "the generated dispatch function no longer matches on the (receiver, arguments..) tuple", b.file)
+            continue
+        width, drows = r
+        mod = b.path.rsplit("::", 1)[0]
+        overloads = sorted(x.path for x in F.bodies.values() if x.pkg == "rscel" and x.path.startswith(mod + "::") and x.path.count("::") == mod.count("::") + 1
+                           and not x.path.endswith("::dispatch") and "{closure" not in x.path)
+        called = sorted(set(pth for pth, _ in drows))
+        if called != overloads:
+            chk.bad("R15.4", "dispatch|%s|overloads" % short, "dispatch reaches %s but the module defines %s" % ([c.rsplit("::", 1)[1] for c in called], [c.rsplit("::", 1)[1] for c in overloads]), b.file)
+        for pth, slots in drows:
+            exp = common.expected_slots(F, pth, width)
+            nd += 1
+            if exp == slots:
+                chk.ok("R15.4", "dispatch|" + pth[len(PFX):], slots)
+            else:
+                chk.bad("R15.4", "dispatch|" + pth[len(PFX):], "%s is selected for (receiver, arguments) = %s but its signature demands %s: the function accepts shapes it does not document (or rejects documented ones)" % (pth[len(PFX):], slots, exp), b.file)
+        errs = [1 for i, t in b.calls() if lib.callee_of(t)[1].endswith("CelValue::argument_error")]
+        if len(errs) >= 2:
+            chk.ok("R15.4", "dispatch|%s|other shapes are errors" % short)
+        else:
+            chk.bad("R15.4", "dispatch|%s|other shapes are errors" % short, "too many arguments / unmatched shapes must be answered with an argument error", b.file)
+    chk.floor("R15.4", "dispatched overloads", nd, 82)
+
     # ---- R15.5
     for name, prim in DOMAIN.items():
         r = rows.get(name)
